@@ -418,7 +418,9 @@ func (x *dbExec) step(db *simpledb.DB, s dbStep, g int) (*simpledb.DB, error) {
 	case "crashcheck":
 		x.crashCheck(db, s)
 	case "window":
-		x.window(db, s)
+		if x.window(db, s) {
+			return nil, nil // the window closed the database
+		}
 	case "failwrites":
 		// from now on, stream writers whose directory matches fail their pos-th data / index append (C11)
 		st := s
@@ -734,7 +736,7 @@ func (r *dbRecorder) countOf(name string) int {
 	return r.counts[name]
 }
 
-func (x *dbExec) window(db *simpledb.DB, s dbStep) {
+func (x *dbExec) window(db *simpledb.DB, s dbStep) (closed bool) {
 	rec := x.rec
 	ctl := &gateCtl{hold: map[string]chan struct{}{}, arrived: map[string]int{}}
 	old := simpledb.VerifGateFn
@@ -759,7 +761,7 @@ func (x *dbExec) window(db *simpledb.DB, s dbStep) {
 			rec.emit(M{"t": "note", "name": "window not reached: flush.written"})
 			ctl.release("flush.written")
 			<-r
-			return
+			return false
 		}
 		<-r
 		ctl.holdPoint("get.between")
@@ -784,7 +786,7 @@ func (x *dbExec) window(db *simpledb.DB, s dbStep) {
 		if !ctl.await("get.between", 1, wait) {
 			ctl.release("get.between")
 			<-g
-			return
+			return false
 		}
 		c := spawn(func() { db.VerifCompactOnce() })
 		// the compaction may merge, but its reflect needs the database write lock, which the reader holds
@@ -799,7 +801,7 @@ func (x *dbExec) window(db *simpledb.DB, s dbStep) {
 		if !ctl.await("flush.written", 1, wait) {
 			ctl.release("flush.written")
 			<-r1
-			return
+			return false
 		}
 		<-r1
 		x.step(db, dbStep{Op: "put", K: 1, V: "w3b", Pad: 5}, 0)
@@ -812,7 +814,41 @@ func (x *dbExec) window(db *simpledb.DB, s dbStep) {
 		ctl.release("flush.written")
 		<-r2
 		<-g
+	case "close-while-compacting":
+		// needs background compaction: the compactor is parked after its merge, Close runs until it waits for the compactor, and only
+		// then the compaction reflects its result (C19: whatever that reflect installs must be released by Close as well)
+		ctl.holdPoint("compact.merged")
+		reached := false
+		for t := 0; t < 12 && !reached; t++ { // until the compactor has more tables than its threshold and has merged them
+			x.step(db, dbStep{Op: "put", K: t % len(x.keys), V: fmt.Sprintf("w4%c", 'a'+t), Pad: 5}, 0)
+			x.step(db, dbStep{Op: "rotate"}, 0)
+			x.step(db, dbStep{Op: "barrier"}, 0)
+			reached = ctl.await("compact.merged", 1, 30*time.Millisecond)
+		}
+		if !reached && !ctl.await("compact.merged", 1, wait) {
+			rec.emit(M{"t": "note", "name": "window not reached: compact.merged"})
+			ctl.release("compact.merged")
+			if err := db.Close(); err != nil {
+				rec.emit(M{"t": "bgfail", "msg": "close failed: " + err.Error()})
+			}
+			return true
+		}
+		before, reflects := rec.countOf("close.flusher"), rec.countOf("reflect.done")
+		c := spawn(func() {
+			if err := db.Close(); err != nil {
+				rec.emit(M{"t": "bgfail", "msg": "close failed: " + err.Error()})
+			}
+		})
+		for i := 0; i < 150000 && rec.countOf("close.flusher") == before; i++ {
+			time.Sleep(200 * time.Microsecond)
+		}
+		time.Sleep(20 * time.Millisecond) // Close is now waiting for the compactor (or, if it does not wait, going on releasing things)
+		ctl.release("compact.merged")
+		<-c
+		rec.emit(M{"t": "note", "name": fmt.Sprintf("compaction reflected during Close: %v", rec.countOf("reflect.done") > reflects)})
+		return true
 	}
+	return false
 }
 
 // ---- engine "lifecycle": call sequences on ONE handle in every phase (new / open / closed) - Lifecycle.tla
